@@ -232,6 +232,14 @@ class Analyzer:
                 findings.append(Finding("clean", name, f.loc(bb)))
                 for a in t["args"][1:]:
                     findings.extend(self.closure_effects(f, a, bb, name, depth))
+            elif name in ("for_each", "try_for_each") and len(t["args"]) >= 2:
+                # a loop written as a closure: judged by the closure's effects on captured state
+                eff = []
+                for a in t["args"][1:]:
+                    eff.extend(self.closure_effects(f, a, bb, name, depth))
+                findings.extend(eff or [Finding("clean", "%s closure has no order-observable effect" % name, f.loc(bb))])
+                if name == "try_for_each":
+                    findings.append(Finding("error-choice", "try_for_each stops at the first error", f.loc(bb)))
             elif name in SENSITIVE_REDUCERS:
                 findings.append(Finding("sensitive", name, f.loc(bb)))
             elif name in ("drop", "drop_in_place", "clone", "size_hint", "fmt"):
